@@ -69,6 +69,10 @@ fn worker(a: &[String]) -> i32 {
                 continue;
             }
         }
+        if let Some(f) = &ctx.progress {
+            use std::os::unix::fs::FileExt;
+            let _ = f.write_at(format!("ENUM {}                              \n", sub.name).as_bytes(), 0);
+        }
         let before = ctx.evals;
         let t = Instant::now();
         if let Err(p) = vcore::engine::guard(|| (sub.run)(&mut ctx)) {
@@ -212,11 +216,28 @@ fn run_workers(id: &str, tier: Tier, seed: u64, n: usize, work: &str, timeout: D
     }
     let t0 = Instant::now();
     let mut outs: Vec<Option<WorkerOut>> = (0..n).map(|_| None).collect();
+    // stall detection: a generated case normally takes microseconds; a worker whose
+    // "<sub> <k>" progress line has not changed for STALL seconds is stuck in one case
+    let stall = Duration::from_secs(std::env::var("VERIF_STALL_SECS").ok().and_then(|s| s.parse().ok()).unwrap_or(180));
+    let mut last_prog: Vec<(String, Instant)> = (0..n).map(|_| (String::new(), Instant::now())).collect();
+    let mut tick = 0u64;
     loop {
         let mut pending = 0;
+        tick += 1;
         for (i, (child, out)) in kids.iter_mut().enumerate() {
             if outs[i].is_some() {
                 continue;
+            }
+            if tick % 50 == 0 {
+                let cur = std::fs::read_to_string(format!("{out}.progress")).unwrap_or_default();
+                if cur != last_prog[i].0 {
+                    last_prog[i] = (cur, Instant::now());
+                } else if !cur.starts_with("ENUM") && !cur.trim().is_empty() && last_prog[i].1.elapsed() > stall {
+                    let _ = child.kill();
+                    let _ = child.wait();
+                    outs[i] = Some(WorkerOut { j: None, hashes: vec![], status: format!("STALLED {}", cur.trim()) });
+                    continue;
+                }
             }
             match child.try_wait() {
                 Ok(Some(st)) => {
@@ -359,6 +380,13 @@ fn parent(id: &str, rest: &[String]) -> i32 {
     for (wi, o) in outs.iter().enumerate() {
         let j = match &o.j {
             Some(j) => j,
+            None if o.status.starts_with("STALLED") => {
+                inconclusive.push(format!(
+                    "worker {wi} made no progress for the stall limit while running one case ({}); a hang is reported as inconclusive, not as a violation",
+                    o.status
+                ));
+                continue;
+            }
             None => {
                 // the worker died (signal, abort): find the case it was running
                 match trace_dead_worker(&prop, id, tier, seed, wi, n, &work, &vd) {
